@@ -112,5 +112,13 @@ CHECKS += [
         "note": "trusted: the independent percent-encoder / decoder and the RFC 3986 syntax regex in checks/c16.py, Python's ipaddress for IP literal normal forms",
     },
 ]
+CHECKS += [
+    {
+        "id": "C17", "engine": "Hypothesis (stateful histories) + reference router", "level": "exploration",
+        "technique": "model-based (stateful) property testing: histories of add/remove/request/discovery steps over a tree of Sites, compared after every step with a reference router, an independent link-format parser and a reference RFC 6690 filter",
+        "text": "Symbolic histories are interpreted against a reference model while they run against real Site objects through Context.render_to_pipe; every request is checked for the handler that ran, the path it saw and the reconstructed URI, every /.well-known/core answer for the exact set of links and attributes with and without a filter. Sampled histories.",
+        "note": "trusted: reference router/filter/link-format parser in checks/c17.py; stub remote instead of a transport",
+    },
+]
 claimed = {c["id"] for c in CHECKS}
 NOT_APPLICABLE = [{"property_id": i, "reason": "check not built yet in this session (planned, see DESIGN.md section 3); no claim is made"} for i in ALL if i not in claimed]
